@@ -12,10 +12,10 @@ RULE = ("all (numerator, denominator) in {1..7,12}x{2,4,8,16} x durations {0, ca
         "mid-bar) x key {None, C, F#} x construction route {absolute, relative}; non-trivial = padding, rejection or a "
         "signature event is involved")
 ASSUMPTIONS = ["a redundant repeat of the matching signature may be accepted or rejected (statement is silent)"]
-REQUIRED_FLAGS = ["padded", "rejected_too_long", "rejected_conflicting_signature", "accepted_exact", "signature_mid_bar",
+REQUIRED_FLAGS = ["padded", "rejected_too_long", "rejected_conflicting_signature", "rejected_equal_length_signature", "accepted_exact", "signature_mid_bar",
                   "copy_compared"]
 
-SIGCFG = ["none", "m0", "m1", "c0", "c1", "m0m1", "m0c1", "c0m1", "d0"]
+SIGCFG = ["none", "m0", "m1", "c0", "c1", "m0m1", "m0c1", "c0m1", "d0", "e0", "e1", "m0e1"]
 
 
 def context(tier, seed):
@@ -64,6 +64,9 @@ def sig_events(sc, n, d):
             ev.append(["ts", int(t), conflict[0], conflict[1]])
         elif a == "d":
             ev.append(["ts", int(t), other_den[0], other_den[1]])
+        elif a == "e":   # a different signature of the SAME bar length (6/8 in a 3/4 bar)
+            eq = (2 * n, 2 * d) if d < 16 else (n // 2, d // 2) if n % 2 == 0 else (n + 1, d)
+            ev.append(["ts", int(t), eq[0], eq[1]])
     return ev
 
 
@@ -91,6 +94,8 @@ def check_case(case, ctx):
             R.flags.append("rejected_too_long")
         if conflicting:
             R.flags.append("rejected_conflicting_signature")
+            if any(e[2] * d == n * e[3] and (e[2], e[3]) != (n, d) for e in events):
+                R.flags.append("rejected_equal_length_signature")
         return R
     except Exception as e:  # noqa: BLE001
         R.bad("other_exception", f"{type(e).__name__}: {e}")
